@@ -1,6 +1,7 @@
 package main
 
 import (
+	"runtime/pprof"
 	"encoding/json"
 	"flag"
 	"fmt"
@@ -54,7 +55,13 @@ func cmdRun(args []string) int {
 	solver := fs.String("solver", "z3", "z3|z3-new|cvc5")
 	maxPaths := fs.Int("max-paths", 1<<30, "path limit")
 	smtlog := fs.String("smtlog", "", "log SMT of worker 0")
+	cpuprof := fs.String("cpuprofile", "", "write cpu profile")
 	fs.Parse(args)
+	if *cpuprof != "" {
+		f, _ := os.Create(*cpuprof)
+		pprof.StartCPUProfile(f)
+		defer pprof.StopCPUProfile()
+	}
 	ov, err := harnessOverlay(*repo, *hdir)
 	if err != nil {
 		fmt.Fprintln(os.Stderr, err)
@@ -71,6 +78,11 @@ func cmdRun(args []string) int {
 	e.nworkers = *workers
 	e.traceCalls = *trace
 	e.traceInstr = os.Getenv("GOSMT_TRACE_INSTR") != ""
+	if os.Getenv("GOSMT_SLOW") != "" {
+		slowLog = func(d time.Duration, r SatResult, where string) {
+			fmt.Fprintf(os.Stderr, "SLOW %.1fs %s %s\n", d.Seconds(), r, where)
+		}
+	}
 	if os.Getenv("GOSMT_SITES") != "" {
 		e.siteStats = map[string]int{}
 		defer func() {
@@ -105,6 +117,7 @@ var smtLogFile string
 func printSummary(r *HarnessResult) {
 	fmt.Printf("== %s params=%v paths=%d %v complete=%v wall=%.1fs solver=%.1fs queries=%d (sat %d unsat %d unknown %d) steps=%d\n",
 		r.Harness, r.Params, r.TotalPaths, r.Paths, r.Complete, r.WallS, r.SolverS, r.Solver.Queries, r.Solver.Sat, r.Solver.Unsat, r.Solver.Unknown, r.Steps)
+	fmt.Printf("   values: %d calls %.1fs\n", r.Solver.ValuesCalls, r.Solver.ValuesTime.Seconds())
 	for id, a := range r.Asserts {
 		fmt.Printf("   assert %-30s discharged=%d trivial=%d violated=%d unknown=%d\n", id, a.Discharged, a.Trivial, a.Violated, a.Unknown)
 	}
